@@ -216,3 +216,5 @@ def run(ctx):
     r3(ctx)
     r4(ctx)
     r5(ctx)
+    from .c16 import r7 as choice_tag_from_root_alternatives
+    choice_tag_from_root_alternatives(ctx, rule="C05.R7")
